@@ -413,8 +413,8 @@ class C10(engine.Property):
     nontermination_is_violation = True
     run_wall_s = 240
     budget = {
-        "quick": {"runs": 3200, "wall_cap_s": 1200, "chunk": 25},
-        "thorough": {"runs": 250000, "wall_cap_s": 3300, "chunk": 100},
+        "quick": {"runs": 4000, "wall_cap_s": 1200, "chunk": 25},
+        "thorough": {"runs": 100000, "wall_cap_s": 5400, "chunk": 100},
     }
     rule = (
         "one evaluation = one seeded run: a world grown by a history (or a deep shape 3-20x "
